@@ -1084,8 +1084,210 @@ def queries_and_inner_sharing_stream(ctx, res):
         res.violate("C17:dict-differs:anyfield-validator", "an AnyField(validator) key field does not normalise keys", {"stream": "anyfield-validator", "typed": repr(dict(cfg.k))})
 
 
+def user_fields_and_raw_keys_stream(ctx, res):
+    """Item, key and value fields as an application writes them: (a) a field whose normalisation is NOT idempotent (KiB given, bytes
+    held; a validator that scales by another field): what is already in the list was normalised when it was put in, so copies,
+    concatenations (+ with every iterable kind, chained, with itself) and += hold it as it is and only the new items pass the field —
+    contents, and the arguments the field's hook saw, are compared with the built-in replay; (b) a validator that maps a blank or a
+    sentinel to None: the container holds None, count / in / remove(None) / setdefault's return agree with the built-in; (c) key
+    fields that normalise (a prefixing subclass, transform_case, integers given as text): queries and removals take the key AS IT IS
+    — pop / get / in / del / [] with a raw key find an entry only if the raw key equals a stored key, exactly like the built-in dict
+    of the normalised keys"""
+    import cincoconfig as cc
+    from cincoconfig.fields.list_field import ListProxy
+    from cincoconfig.fields.dict_field import DictProxy
+    seen = []
+
+    class KibField(cc.Field):
+        storage_type = int
+
+        def _validate(self, cfg, value):
+            seen.append(value)
+            return int(value) * 1024
+
+    class HeaderNameField(cc.StringField):
+        def __init__(self, prefix="", **kw):
+            super().__init__(**kw)
+            self.prefix = prefix
+
+        def _validate(self, cfg, value):
+            value = super()._validate(cfg, value).strip().title()
+            return value if value.startswith(self.prefix) else self.prefix + value
+
+    class LimitField(cc.Field):
+        storage_type = int
+
+        def _validate(self, cfg, value):
+            return value if value == "unlimited" else int(value)
+    s = cc.Schema()
+    s.unit = cc.IntField(default=1000)
+    s.sizes = cc.ListField(KibField(), default=lambda: [])
+    s.weights = cc.ListField(cc.IntField(validator=lambda cfg, v: v * cfg.unit), default=lambda: [])
+    s.names = cc.ListField(cc.StringField(transform_strip=True, validator=lambda cfg, v: v or None), default=lambda: [])
+    s.limits = cc.DictField(cc.StringField(), LimitField(validator=lambda cfg, v: None if v == "unlimited" or v < 0 else v), default=dict)
+    s.headers = cc.DictField(HeaderNameField(prefix="X-"), cc.StringField(), default=dict)
+    s.levels = cc.DictField(cc.StringField(transform_case="lower"), cc.IntField(), default=dict)
+    s.ports = cc.DictField(cc.IntField(), cc.StringField(), default=dict)
+    cfg = s()
+
+    def same(case, typed, model, typed_cls=None):
+        res.case(stable(case), kind=case["stream"])
+        got = list(typed.items()) if isinstance(typed, dict) else list(typed)
+        want = list(model.items()) if isinstance(model, dict) else list(model)
+        if got != want:
+            res.violate("C17:contents", "a typed container over a user-written field differs from the built-in holding the normalised forms", dict(case, got=repr(got), want=repr(want)))
+        if typed_cls is not None and not isinstance(typed, typed_cls):
+            res.violate("C17:result-not-typed", "the result of a copy or concatenation is not typed", dict(case, type=type(typed).__name__))
+
+    def ret(case, got, want):
+        res.case(stable(case), kind=case["stream"])
+        if got != want or type(got) is not type(want):
+            res.violate("C17:return-value", "an operation on a typed container over a user-written field returned something else than the built-in", dict(case, got=repr(got), want=repr(want)))
+    # (a)
+    cfg.sizes.append("1")
+    cfg.sizes.extend([2, "3"])
+    model = [1024, 2048, 3072]
+    same({"stream": "non-idempotent-items", "op": "append/extend"}, cfg.sizes, model, ListProxy)
+    for label, right, new in (("list", ["4"], ["4"]), ("tuple", ("4", 5), ["4", 5]), ("empty list", [], []), ("empty generator", (x for x in ()), []), ("iterator", iter([6]), [6]),
+                              ("itself", cfg.sizes, []), ("a copy", cfg.sizes.copy(), [])):
+        del seen[:]
+        is_proxy = isinstance(right, ListProxy)
+        want = model + (list(right) if is_proxy else [int(x) * 1024 for x in new])
+        out = cfg.sizes + right
+        case = {"stream": "non-idempotent-items", "op": "+", "right": label}
+        same(case, out, want, ListProxy)
+        same(dict(case, what="left operand afterwards"), cfg.sizes, model)
+        if seen != new:
+            res.violate("C17:revalidated", "a concatenation passed items through the item field that were not put in by this operation (or did not pass the new ones)",
+                        dict(case, hook_saw=repr(seen), new_items=repr(new)))
+    del seen[:]
+    out = cfg.sizes + ["7"] + ("8",)
+    same({"stream": "non-idempotent-items", "op": "+ +"}, out, model + [7168, 8192], ListProxy)
+    out = cfg.sizes.copy()
+    same({"stream": "non-idempotent-items", "op": "copy"}, out, model, ListProxy)
+    out = copy.copy(cfg.sizes)
+    same({"stream": "non-idempotent-items", "op": "copy.copy"}, out, model)
+    if seen != ["7", "8"]:
+        res.violate("C17:revalidated", "chained concatenations and copies passed already normalised items through the item field again", {"stream": "non-idempotent-items", "hook_saw": repr(seen)})
+    # F72: the copy module's shallow copy is a copy like `.copy()`: typed, same items, and the held items do not pass the field again
+    # (a field whose acceptance depends on the outside world — a file that must exist — would refuse its own held items)
+    s2 = cc.Schema()
+    s2.quota = cc.DictField(cc.StringField(transform_case="upper"), KibField(), default=dict)
+    s2.files = cc.ListField(cc.FilenameField(exists="file", startdir=ctx.tmp if hasattr(ctx, "tmp") else None), default=lambda: [])
+    c2 = s2()
+    c2.quota.update({"a": "1"}, b=2)
+    del seen[:]
+    for label, dup in ((".copy()", c2.quota.copy()), ("copy.copy", copy.copy(c2.quota))):
+        same({"stream": "non-idempotent-items", "op": "dict " + label}, dup, {"A": 1024, "B": 2048}, DictProxy)
+    if seen:
+        res.violate("C17:revalidated", "a shallow copy of a typed dict passed the held values through the value field again", {"stream": "non-idempotent-items", "op": "dict copies", "hook_saw": repr(seen)})
+    import tempfile
+    fd, path = tempfile.mkstemp(prefix="c17-held-", suffix=".txt")
+    os.close(fd)
+    try:
+        c2.files.append(path)
+    finally:
+        os.remove(path)
+    for label, fn in ((".copy()", lambda: c2.files.copy()), ("copy.copy", lambda: copy.copy(c2.files)), ("+ []", lambda: c2.files + [])):
+        case = {"stream": "non-idempotent-items", "op": "held file name, file gone, " + label}
+        try:
+            same(case, fn(), [path], ListProxy)
+        except Exception as e:  # noqa
+            res.case(stable(case), kind=case["stream"])
+            res.violate("C17:revalidated", "a copy of a typed list validated the held items again and failed on one that was acceptable when it was put in", dict(case, error="%s: %s" % (type(e).__name__, str(e)[:80])))
+    cfg.sizes += ["9"]
+    model += [9216]
+    same({"stream": "non-idempotent-items", "op": "+="}, cfg.sizes, model, ListProxy)
+    cfg.sizes[1:2] = iter(["10", 11])
+    model[1:2] = [10240, 11264]
+    same({"stream": "non-idempotent-items", "op": "slice="}, cfg.sizes, model, ListProxy)
+    cfg.weights += [1, "2"]
+    same({"stream": "non-idempotent-items", "op": "validator +="}, cfg.weights, [1000, 2000], ListProxy)
+    same({"stream": "non-idempotent-items", "op": "validator +"}, cfg.weights + (3,), [1000, 2000, 3000], ListProxy)
+    same({"stream": "non-idempotent-items", "op": "validator + +"}, cfg.weights + [3] + [4], [1000, 2000, 3000, 4000], ListProxy)
+    same({"stream": "non-idempotent-items", "op": "validator + itself"}, cfg.weights + cfg.weights, [1000, 2000, 1000, 2000], ListProxy)
+    # (b)
+    norm = lambda raw: (raw.strip() or None)           # noqa: E731
+    names, model = cfg.names, []
+    names.append(" a ")
+    model.append(norm(" a "))
+    names.append("   ")
+    model.append(norm("   "))
+    same({"stream": "none-normal-form", "op": "append blank"}, names, model)
+    names.insert(0, "")
+    model.insert(0, norm(""))
+    same({"stream": "none-normal-form", "op": "insert blank"}, names, model)
+    names[1:1] = iter(["b", " "])
+    model[1:1] = [norm(x) for x in ["b", " "]]
+    same({"stream": "none-normal-form", "op": "slice= iterator"}, names, model)
+    cfg.names += ("", "c")
+    model += [norm(x) for x in ("", "c")]
+    names = cfg.names
+    same({"stream": "none-normal-form", "op": "+= tuple"}, names, model, ListProxy)
+    ret({"stream": "none-normal-form", "op": "count(None)"}, names.count(None), model.count(None))
+    ret({"stream": "none-normal-form", "op": "None in"}, None in names, None in model)
+    ret({"stream": "none-normal-form", "op": "index(None)"}, names.index(None) if None in names else -1, model.index(None))
+    same({"stream": "none-normal-form", "op": "+ [blank]"}, names + [""], model + [None], ListProxy)
+    try:
+        names.remove(None)
+    except ValueError:
+        res.violate("C17:return-value", "remove(None) found nothing although a blank was put in through a validator that maps it to None", {"stream": "none-normal-form", "op": "remove(None)"})
+    else:
+        model.remove(None)
+    same({"stream": "none-normal-form", "op": "remove(None)"}, names, model)
+
+    def lim(raw):
+        return None if raw == "unlimited" or int(raw) < 0 else int(raw)
+    limits, dmodel = cfg.limits, {}
+    limits["cpu"] = "4"
+    dmodel["cpu"] = lim("4")
+    limits["mem"] = "unlimited"
+    dmodel["mem"] = lim("unlimited")
+    same({"stream": "none-normal-form", "op": "d[k] = sentinel"}, limits, dmodel)
+    limits.update({"io": -1}, net="unlimited", cpu=-1)
+    dmodel.update({"io": lim(-1)}, net=lim("unlimited"), cpu=lim(-1))
+    same({"stream": "none-normal-form", "op": "update(mapping, **kw)"}, limits, dmodel)
+    ret({"stream": "none-normal-form", "op": "setdefault(k, sentinel)"}, limits.setdefault("gpu", -1), dmodel.setdefault("gpu", lim(-1)))
+    ret({"stream": "none-normal-form", "op": "setdefault(k, number)"}, limits.setdefault("tpu", "2"), dmodel.setdefault("tpu", lim("2")))
+    same({"stream": "none-normal-form", "op": "setdefault"}, limits, dmodel)
+    cfg.limits |= [("fd", "1024"), ("mem", -5)]
+    dmodel.update([("fd", lim("1024")), ("mem", lim(-5))])
+    same({"stream": "none-normal-form", "op": "|= pairs"}, cfg.limits, dmodel, DictProxy)
+    # (c)
+    MISSING = object()
+    cfg.headers["trace-id"] = "1"
+    cfg.headers.update({"X-Tenant": "t", "cache": "no", " x-auth ": "a"})
+    cfg.levels.update(Root=10, app=20, DB=30)
+    cfg.ports["80"] = "http"
+    cfg.ports[443] = "https"
+    cfg.ports.update({"8080": "alt", 22: "ssh"})
+    models = {"headers": {"X-Trace-Id": "1", "X-Tenant": "t", "X-Cache": "no", "X-Auth": "a"}, "levels": {"root": 10, "app": 20, "db": 30},
+              "ports": {80: "http", 443: "https", 8080: "alt", 22: "ssh"}}
+    for name in models:
+        same({"stream": "raw-keys", "dict": name, "op": "filled"}, cfg[name], models[name], DictProxy)
+    ops = (("pop", lambda d, k: d.pop(k)), ("pop default", lambda d, k: d.pop(k, MISSING) is MISSING), ("get", lambda d, k: d.get(k)), ("in", lambda d, k: k in d),
+           ("[]", lambda d, k: d[k]), ("del", lambda d, k: d.__delitem__(k)))
+    keys = {"headers": ("trace-id", "x-cache", "X-Tenant", "cache", " x-auth ", "X-Auth", "nope"), "levels": ("ROOT", "Root", "app", "DB", "db", "nope"),
+            "ports": ("80", 80, "443", "8080", 8080, 22, "22", "no-port", 1)}
+    for name, raw_keys in keys.items():
+        for op_name, op in ops:
+            typed, model = cfg[name].copy(), dict(models[name])
+            for k in raw_keys:
+                outs = []
+                for target in (typed, model):
+                    try:
+                        outs.append(("returned", op(target, k)))
+                    except KeyError as e:
+                        outs.append(("KeyError", e.args))
+                    except Exception as e:  # noqa
+                        outs.append((type(e).__name__, str(e)[:60]))
+                case = {"stream": "raw-keys", "dict": name, "op": op_name, "key": repr(k)}
+                ret(case, outs[0], outs[1])
+                same(dict(case, what="contents afterwards"), typed, model)
+
 def run(ctx, n_quick=400, n_thorough=20000):
     res = Result()
+    guard(res, "C17", user_fields_and_raw_keys_stream, ctx, res)
     guard(res, "C17", list_stream, ctx, res, ctx.n(n_quick, n_thorough))
     guard(res, "C17", dict_stream, ctx, res, ctx.n(n_quick, n_thorough))
     guard(res, "C17", dict_forms_stream, ctx, res)
